@@ -17,9 +17,12 @@ import traceback
 
 ROOT = os.path.dirname(os.path.dirname(os.path.abspath(__file__)))
 REPO = os.environ.get('VERIF_REPO', '/repo')
-EVIDENCE_DIR = os.path.join(ROOT, 'evidence')
+# VERIF_OUT redirects what a run writes (evidence, shrunk violations): used when a check is pointed at a scratch copy of the
+# repository (VERIF_REPO), so that such runs never overwrite the evidence of the real tree
+_OUT = os.environ.get('VERIF_OUT')
+EVIDENCE_DIR = os.path.join(_OUT, 'evidence') if _OUT else os.path.join(ROOT, 'evidence')
 REPLAY_DIR = os.path.join(ROOT, 'replays')
-OUT_DIR = os.path.join(ROOT, 'out')
+OUT_DIR = os.path.join(_OUT, 'out') if _OUT else os.path.join(ROOT, 'out')
 KNOWN_FILE = os.path.join(ROOT, 'KNOWN_FINDINGS.txt')
 NCPU = min(16, os.cpu_count() or 1)
 
